@@ -180,7 +180,12 @@ func (l *ParamList) FromText(rawparams []byte) error {
 	//     b. the mandatory keys are all available in this list
 	text := bytes.Split(rawparams, paramDelim)
 	seen := make(map[paramNum]int)
-	for idx := 0; idx < len(text) && len(text[idx]) > 0; idx++ {
+	for idx := 0; idx < len(text); idx++ {
+		if len(text[idx]) == 0 {
+			// tolerate empty segments (trailing or doubled ';') without
+			// dropping the parameters that follow them
+			continue
+		}
 		p := param{}
 		err := p.fromText(text[idx])
 		if err != nil {
@@ -190,7 +195,7 @@ func (l *ParamList) FromText(rawparams []byte) error {
 		if presence {
 			return fmt.Errorf("error parsing %s: keys have to be unique", text[idx])
 		}
-		seen[p.keynum] = idx
+		seen[p.keynum] = len(*l)
 		*l = append(*l, p)
 	}
 
